@@ -1,4 +1,5 @@
 import MxModel.Proofs.BackupGen
+import MxModel.Proofs.IOSession
 import MxModel.Proofs.BackupSeq
 import MxModel.Proofs.BackupSession
 import MxModel.Proofs.BackupPolicy
@@ -555,5 +556,57 @@ example : (save maxB demoDirIO 4 zipWitnessFs).2 = true ∧
     (save maxB { demoDirIO with pol := { persist := true } } 4 zipWitnessFs).1 0 = .part .dir 2 ∧
     (save maxB { demoDirIO with pol := { persist := true } } 4 zipWitnessFs).1 1 = .good .zip 1 := by
   decide
+
+/-! ## A failed load in the session-wide IOManager (`Kernels/IOSession.lean`)
+
+`ModelReader.read_model` (f95f7ad): the unpicklers register specs and file objects before the values are bound;
+when the load fails the half-read model is closed, the specs read are deleted and the file objects that were not
+registered when the load began are removed - BY IDENTITY. -/
+
+/-- **The clean-up of a failed load leaves the others alone**: a file object that was registered when the load
+began (`snapshot`), none of whose specs the load read and none of whose values the half-read model references
+(the values of a load are new objects), is in the registry afterwards as it was - identity, key, all specs;
+whatever its group: another model's, or the session-wide group of absolute paths. -/
+theorem failed_load_cleanup_leaves_others (st : IOSession.St) (m : Nat) (snapshot read : List Nat)
+    (hdet : IOSession.SidDet st) (io : IOSession.Io) (hio : io ∈ st.ios)
+    (hsnap : snapshot.contains io.iid = true)
+    (hread : ∀ s ∈ io.specs, read.contains s.sid = false)
+    (hval : ∀ s ∈ io.specs, IOSession.boundIn st.refs m s.val = false) :
+    io ∈ (IOSession.cleanup st m snapshot read).ios :=
+  IOSession.cleanup_keeps st m snapshot read hdet io hio hsnap hread hval
+
+/-- **…and removes what the load created**: every file object left was registered when the load began and holds
+none of the specs the load read. -/
+theorem failed_load_cleanup_removes_created (st : IOSession.St) (m : Nat) (snapshot read : List Nat) :
+    ∀ io ∈ (IOSession.cleanup st m snapshot read).ios,
+      snapshot.contains io.iid = true ∧ ∀ s ∈ io.specs, read.contains s.sid = false :=
+  IOSession.cleanup_removes st m snapshot read
+
+/-- a whole failed load (a relative csv, a relative module, a csv under an absolute path, one value already bound)
+next to two models with external files: the registry of file objects, the references and `iospecs` of the others
+are exactly what they were; the same load succeeding registers three file objects -/
+example :
+    let items : List IOSession.Item := [⟨"S.df", ⟨false, "d.csv"⟩, false, none, 10, true⟩,
+      ⟨".mod", ⟨false, "m.py"⟩, false, none, 11, false⟩, ⟨"S.e", ⟨true, "z/e.csv"⟩, false, none, 12, false⟩]
+    (IOSession.load IOSession.demo items false).1.ios = IOSession.demo.ios ∧
+    (IOSession.load IOSession.demo items false).2 = .loadFailed ∧
+    IOSession.specsOf (IOSession.load IOSession.demo items false).1 0 = IOSession.specsOf IOSession.demo 0 ∧
+    (IOSession.load IOSession.demo items true).1.ios.length = IOSession.demo.ios.length + 3 := by
+  decide +kernel
+
+/-- a load of a save whose external file is in use by an open model (C18-absolute-io-shared) fails at the
+unpickler and is cleaned up the same way -/
+example :
+    (IOSession.load IOSession.demo [⟨"S.df", ⟨false, "d.csv"⟩, false, none, 10, true⟩,
+      ⟨"S.e", ⟨true, "x/b.csv"⟩, false, none, 12, true⟩] true).1.ios = IOSession.demo.ios := by decide +kernel
+
+/-- **C14-mutG is not the code**: a clean-up that selects the entries by `not group or group == io_group`
+deletes the external file object of a model that has nothing to do with the load -/
+example :
+    let half := (IOSession.readSpecs (IOSession.run IOSession.demo [.newModel]) 2
+      [⟨"S.df", ⟨false, "d.csv"⟩, false, none, 10, false⟩] []).1
+    IOSession.specsOf (IOSession.cleanupMutG half 2) 0 ≠ IOSession.specsOf IOSession.demo 0 ∧
+    IOSession.specsOf (IOSession.cleanup half 2 (IOSession.demo.ios.map (·.iid)) [4]) 0
+      = IOSession.specsOf IOSession.demo 0 := by decide +kernel
 
 end MxModel.C14
